@@ -214,7 +214,9 @@ def step (args : List String) : String :=
         | .ok out =>
           let jv := Burrow.Json.valid out
           let viol := if shipped && safe && isJsonTemplate name && !jv then " ~specviol=json" else ""
-          s!"r=ok out={hexOfString out} json={if jv then "valid" else "invalid"} gen={gen}{flowS}{viol}{envViol}"
+          -- `exec` is a function of the data: renderings made at the same time are what they are alone
+          let par := if kv rest "par" == some "1" then " par=same" else ""
+          s!"r=ok out={hexOfString out} json={if jv then "valid" else "invalid"} gen={gen}{par}{flowS}{viol}{envViol}"
         | .err _ => s!"r=err gen={gen}" ++ (if shipped && inv then " ~specviol=render" else "")
         | .unsup w => s!"r=unsup gen={gen} ~why={hexOfString w}"
     | _, _, _, _, _, _ => "bad-op"
